@@ -455,6 +455,8 @@ pub fn check(prop: &str, tier: &str) -> i32 {
     let mut plans = plans(prop, th);
     // diagnostic only: VERIF_DD_ONLY=<family> restricts the run to one family, completely enumerated
     if let Ok(only) = std::env::var("VERIF_DD_ONLY") { plans.retain(|p| p.fam.name() == only); for p in plans.iter_mut() { p.limit = None; } }
+    // cheapest scopes first: a wall clock cap (loaded machine) then only cuts the largest enumerations
+    plans.sort_by_key(|p| p.limit.map_or(p.fam.count(), |l| l.min(p.fam.count())) * if p.rotate { 1 } else { p.variants.len() as u64 } * if p.history { 8 } else { 1 });
     let mut total = Agg::default();
     let mut scopes = vec![];
     let mut complete = true;
